@@ -15,12 +15,14 @@ func init() {
 // c01R30: round-6 seed. doComposite, assigned to an existing struct variable, zeroed the variable
 // and set its fields in place while evaluating the element expressions, so p = point{p.y, p.x}
 // read fields already overwritten.
-func c01R30(ic *IC, r *Report) {
+// compositeBuilders returns the generators compositeGenerator selects and the helpers they
+// delegate to with their node.
+func compositeBuilders(ic *IC, r *Report, rule string) []*types.Func {
 	info := ic.Info
 	sel := ic.F["compositeGenerator"]
 	if sel == nil || sel.Decl.Body == nil {
-		r.Errorf("R01.30: compositeGenerator not found")
-		return
+		r.Errorf(rule + ": compositeGenerator not found")
+		return nil
 	}
 	seen := map[*types.Func]bool{}
 	var work []*types.Func
@@ -39,8 +41,8 @@ func c01R30(ic *IC, r *Report) {
 		return true
 	})
 	if len(work) < 6 {
-		r.Errorf("R01.30: only %d composite-literal generators selected by compositeGenerator", len(work))
-		return
+		r.Errorf(rule+": only %d composite-literal generators selected by compositeGenerator", len(work))
+		return nil
 	}
 	// helpers they delegate to (first parameter the node)
 	for i := 0; i < len(work); i++ {
@@ -65,6 +67,15 @@ func c01R30(ic *IC, r *Report) {
 		}
 	}
 	sort.Slice(work, func(i, j int) bool { return work[i].Name() < work[j].Name() })
+	return work
+}
+
+func c01R30(ic *IC, r *Report) {
+	info := ic.Info
+	work := compositeBuilders(ic, r, "R01.30")
+	if work == nil {
+		return
+	}
 	execFld := ic.field("node", "exec")
 	isGenType := func(t types.Type) bool {
 		sg, ok := t.Underlying().(*types.Signature)
